@@ -10,8 +10,12 @@
 (* alternatives are plausible refactorings:                                *)
 (*   order  "split_unescape" | "unescape_split"  -- members are unescaped  *)
 (*          after / before the text is split at the delimiters             *)
-(*   closed "drop" | "keep" -- what object assembly does with a property   *)
-(*          the schema does not declare when additionalProperties: false   *)
+(*   closed "drop" | "keep" | "keep_own" -- what object assembly does with *)
+(*          a property the schema does not declare when                    *)
+(*          additionalProperties: false: drop it silently; keep it as sent *)
+(*          (validation then reports it); keep it, and an exploded form    *)
+(*          object with such a closed schema claims only the query keys    *)
+(*          its schema declares (the code since fb9cd6e)                   *)
 (* MC_C05 checks (D) which designs are inverses of ParamCodec!Wire on the  *)
 (* universe of Gen_C05; Trace_C05 compares the as-built design with what   *)
 (* the code returned (fidelity).                                           *)
@@ -72,7 +76,7 @@ MakeObject(closed, s, props) ==
        txt(k) == props[CHOOSE i \in DOMAIN props : props[i].k = KeyCs(k)].v
        declared(k) == PropIdx(s, k) # 0
        typed(k) == declared(k) \/ Has(s, "apSchema")
-       raw(k) == ~typed(k) /\ closed = "keep" /\ Has(s, "apFalse")          \* kept as sent: a string
+       raw(k) == ~typed(k) /\ closed \in {"keep", "keep_own"} /\ Has(s, "apFalse")          \* kept as sent: a string
        kept == SelectSeq(AllKeys, LAMBDA k : has(k) /\ (typed(k) \/ raw(k)))
        parsed == [i \in DOMAIN kept |-> IF raw(kept[i]) THEN Ok(Str(txt(kept[i])))
                                         ELSE ParsePrim(IF declared(kept[i]) THEN s.ps[PropIdx(s, kept[i])] ELSE s.apSchema, txt(kept[i]))] IN
@@ -120,7 +124,11 @@ DecodeForm(order, closed, c, name, s, pairs) ==
                                          ELSE Members(order, mine[1].v, <<",">>, TRUE))
      [] k = "obj"  ->
           IF c.explode
-          THEN LET r == MakeObject(closed, s, FirstPerKey(Decoded(pairs))) IN
+          THEN LET all == FirstPerKey(Decoded(pairs))
+                   \* the candidates: every query key of the request; with a closed schema (keep_own) the declared ones only
+                   cand == IF closed = "keep_own" /\ Has(s, "apFalse")
+                           THEN SelectSeq(all, LAMBDA p : \E i \in DOMAIN s.pk : KeyCs(s.pk[i]) = p.k) ELSE all
+                   r == MakeObject(closed, s, cand) IN
                IF r.ok /\ r.val.k = <<>> THEN Absent ELSE r
           ELSE IF mine = <<>> THEN Absent
                ELSE LET ps == Props(Members(order, mine[1].v, <<",">>, TRUE), TRUE, <<"=">>) IN
@@ -131,9 +139,10 @@ OtherPairs(ot) == CASE ot = "-" -> <<>> [] ot = "z" -> <<Pair(<<"z">>, <<"1">>)>
 FormReq(c, name, v, m, ot) == (IF ot = "upper" THEN OtherPairs(ot) ELSE <<>>) \o QueryPairsCs(c, name, v, Enc(c, v, m), m)
                               \o (IF ot = "z" THEN OtherPairs(ot) ELSE <<>>)
 
-(* the designs as built today (openapi3filter/req_resp_decoder.go): the path decoder splits, then unescapes; the query   *)
-(* decoder works on decoded text; undeclared properties are dropped                                                     *)
+(* the designs as built today (openapi3filter/req_resp_decoder.go at fb9cd6e): the path decoder splits, then unescapes;  *)
+(* the query decoder works on decoded text (F-C05-4, open); undeclared properties under a closed schema are kept for     *)
+(* validation, an exploded form object claims only its own keys then                                                    *)
 AsBuilt(c, name, s, v, m, ot) ==
-   IF c.in = "path" THEN DecodePath("split_unescape", "drop", c, name, s, PathCs(c, name, v, Enc(c, v, m)))
-   ELSE DecodeForm("unescape_split", "drop", c, name, s, FormReq(c, name, v, m, ot))
+   IF c.in = "path" THEN DecodePath("split_unescape", "keep_own", c, name, s, PathCs(c, name, v, Enc(c, v, m)))
+   ELSE DecodeForm("unescape_split", "keep_own", c, name, s, FormReq(c, name, v, m, ot))
 =============================================================================
